@@ -25,14 +25,21 @@ def P(level, explanation, bounded_functions=(), trusted=(), assumptions=(), desi
 
 
 PROPS = {
-    'C17': P('other',
-             'contract-based deductive verification: every calendar combinator, the fixed/dated/weekly getters, the range checks, Resource.get_available_units and the '
-             'availability search are symbolically executed from the real source and proved equal to their specification function for all operand lists, dates and horizons '
-             '(loop invariants, no bound). Level is `other`, not `proof`, because WeeklyCalendar.__init__, DirectCalendar.__init__/set_units and the operator methods '
-             '(__add__ ... __or__, __prepare_calendar: dynamically typed operands) are covered only by the bounded native stand-in.',
-             bounded_functions=['WeeklyCalendar.__init__', 'DirectCalendar.__init__', 'DirectCalendar.set_units', 'IWorkCalendar.__add__/__sub__/__mul__/__truediv__/__or__/__prepare_calendar', 'FuncCalendar.get_available_units'],
-             trusted=['interface contract: get_available_units of an operand calendar is a pure function val(calendar, date) (L)', 'dict lookup contract (k in d, d[k]) for the two dict-valued calendar fields'],
-             assumptions=['A-div: WorkCalendarDiv is specified only for dates on which no divisor operand has the value 0 (Python raises ZeroDivisionError there)'],
+    'C17': P('proof',
+             'contract-based deductive verification of EVERY function the property depends on, symbolically executed from the real source and discharged by z3 for all inputs (loops by invariants, no bound): '
+             'the five combinators (value = the operator folded over the operand values; operands without information skipped; negative difference = none; | = first positive operand) and their constructors; '
+             'the operator methods __add__/__sub__/__mul__/__truediv__/__or__ and __prepare_calendar (result = the right combinator over [receiver, operand], a number acting as a constant calendar, the number 0 as divisor '
+             'and negative numbers rejected with RuntimeError); FixedCalendar / DirectCalendar / WeeklyCalendar getters AND constructors incl. set_units and the two range checks (configured value inside the validity, none / zero '
+             'outside; rejected exactly for weekdays outside 0-6, negative units, start after end or a malformed argument combination; the constructors establish the class invariants the getters assume); FuncCalendar; '
+             'Resource.get_available_units (0, never None); IResource.get_nearest_availability_date (earliest whole-day offset with capacity in either direction, RuntimeError exactly when none exists within the horizon, termination). '
+             'The sentence about calendar *expressions* follows by structural induction over the expression from these per-class contracts through the interface function val(calendar, date). '
+             'The bounded native stand-in is still run (random expressions, constructor lists, repeated queries) as replay / counterexample search, but no clause of C17 rests on it.',
+             bounded_functions=[],
+             trusted=['interface contract: val(calendar, date) denotes what calendar.get_available_units(date) returns (L)', 'dict contracts (k in d, d[k], d[k] = v, d | e, dict comprehension, keys()) for the dict-valued calendar fields',
+                      'list contract (iteration by index, literal lists)', 'not in scope of the property and not under contract: __repr__ helpers, WeeklyCalendar.clone / get_week_day_hours, DirectCalendar.dates, IWorkCalendar.apply, IResource.reserve'],
+             assumptions=['A-div: WorkCalendarDiv is specified only for dates on which no divisor operand has the value 0 (Python raises ZeroDivisionError there)',
+                          'DirectCalendar: the keys handed to the constructor / set_units lie on pairwise different days (with two keys on one day the later one wins - not specified)',
+                          'WeeklyCalendar.__init__: units_per_day is None, a number, or a dict with integer keys and numeric values'],
              design_ref='8/C17'),
 }
 _SCHED_TRUST = ['interface contract (L): IResource.get_available_units is a pure, deterministic, day-granular function cap(resource, day) - proved zero-filled / never None for Resource over every calendar class (contracts/calendar.py)',
